@@ -275,7 +275,73 @@ fn hostile_state<Q: QT>(r: &mut Rng) -> Vec<u64> {
     let topmask = if topbits == 64 { u64::MAX } else { (1u64 << topbits) - 1 };
     let sign = 1u64 << (topbits - 1);
     let mut l = vec![0u64; nl];
-    match r.below(8) {
+    match r.below(12) {
+        8..=11 => {
+            // a rounding boundary of the posit format (posit value or midpoint) plus or minus ONE
+            // far-away bit: what to_posit / into_*_posits must still see as sticky. The extra
+            // bit sits exactly 63 / 64 / 65 places below the leading bit, on a limb boundary,
+            // at the very bottom, directly below the tie bit, or anywhere below it.
+            let f = <Q::P as PT>::F;
+            let frac = Q::FRAC_BITS as i64;
+            let lead = r.range(1, Q::TOTAL_BITS as i64 - 3); // index of the leading bit
+            let scale = (lead - frac) as i32;
+            let w = (crate::gen::avail_width(f, scale).max(1) as i64).min(lead + 1);
+            let setbit = |l: &mut Vec<u64>, i: i64| l[(i / 64) as usize] |= 1u64 << (i % 64);
+            // kept significand: w bits from `lead` downwards, top bit set
+            setbit(&mut l, lead);
+            for i in (lead - w + 1)..lead {
+                if r.chance(1, 2) {
+                    setbit(&mut l, i);
+                }
+            }
+            let tie = lead - w; // position of the tie bit (may be < 0: no room)
+            if tie >= 0 && r.chance(2, 3) {
+                setbit(&mut l, tie);
+            }
+            if tie >= 1 {
+                let j = match r.below(10) {
+                    0..=1 => lead - 64,
+                    2 => lead - 63,
+                    3 => lead - 65,
+                    4 => 0,
+                    5 => tie - 1,
+                    6 => tie - 2,
+                    7 => (r.below(nl as u64) as i64) * 64,
+                    8 => (r.below(nl as u64) as i64) * 64 - 1,
+                    _ => r.range(0, tie - 1),
+                };
+                if j >= 0 && j < tie {
+                    if r.chance(2, 3) {
+                        setbit(&mut l, j);
+                    } else {
+                        // subtract 2^j: borrow ripples up through the zeros below the tie bit
+                        let mut i = j;
+                        loop {
+                            let (li, bi) = ((i / 64) as usize, i % 64);
+                            if l[li] >> bi & 1 == 1 {
+                                l[li] &= !(1u64 << bi);
+                                break;
+                            }
+                            l[li] |= 1u64 << bi;
+                            i += 1;
+                            if i > lead {
+                                break;
+                            }
+                        }
+                    }
+                }
+            }
+            if r.chance(1, 2) {
+                // negate (two's complement over the whole image)
+                let mut carry = 1u128;
+                for x in l.iter_mut() {
+                    let t = (!*x) as u128 + carry;
+                    *x = t as u64;
+                    carry = t >> 64;
+                }
+                l[nl - 1] &= topmask;
+            }
+        }
         0 => {
             // just below +limit
             for x in l.iter_mut() {
@@ -889,14 +955,14 @@ fn run_for<Q: QT>(ctx: &Ctx, rep: &mut Report, c12: bool, histories: u64, maxlen
 }
 
 pub fn run_c04(ctx: &Ctx, rep: &mut Report) {
-    let (h, ml) = if ctx.quick() { (250_000, 64) } else { (3_000_000, 4096) };
+    let (h, ml) = if ctx.quick() { (250_000 >> crate::rt::scale_shift(), 64) } else { (3_000_000, 4096) };
     run_for::<Q8E0>(ctx, rep, false, h, ml.min(512));
     run_for::<Q16E1>(ctx, rep, false, h, ml);
     run_for::<Q32E2>(ctx, rep, false, h, ml);
 }
 
 pub fn run_c12(ctx: &Ctx, rep: &mut Report) {
-    let (h, ml) = if ctx.quick() { (150_000, 48) } else { (2_000_000, 1024) };
+    let (h, ml) = if ctx.quick() { (150_000 >> crate::rt::scale_shift(), 48) } else { (2_000_000, 1024) };
     run_for::<Q8E0>(ctx, rep, true, h, ml.min(256));
     run_for::<Q16E1>(ctx, rep, true, h, ml);
     run_for::<Q32E2>(ctx, rep, true, h, ml);
